@@ -54,6 +54,7 @@ pub fn generate_c01(tier: &str, rng: &mut Prng) -> Vec<Case> {
         for ks in &keys {
             sign_model_ops(n, ks, if thorough { 6 } else { 2 }, rng, &mut ops);
         }
+        sign_basis_ops(n, &keys[0], if thorough { 12 } else { 2 }, rng, &mut ops);
         for ks in &keys {
             for i in 0..per_key {
                 let ml = match i % 12 {
@@ -342,6 +343,7 @@ pub fn generate_c10(tier: &str, rng: &mut Prng) -> Vec<Case> {
         for ks in &keys {
             sign_model_ops(n, ks, if thorough { 12 } else { 2 }, rng, &mut ops);
         }
+        sign_basis_ops(n, &keys[0], if thorough { 12 } else { 2 }, rng, &mut ops);
         for ks in &keys {
             for _ in 0..(if thorough { 1500 } else { 60 }) {
                 let ml = rng.below(64) as usize;
@@ -413,6 +415,25 @@ pub fn oracle_c10(op: &[&str], out: &str) -> Verdict {
     // the normalised squared norm of one signature is a chi-square-like variable with 2n degrees of freedom and mean 2n
     // (per-signature support only; the aggregate is reported in the evidence by bin/check)
     Verdict::Pass
+}
+
+/// `sign_basis` ops: the key's basis with its first two rows scaled by sc/16 (not a Falcon key any more: the norm test
+/// and, for Falcon-1024, the compression fail often), so that both retry loops of `sign` run in the real code and in the
+/// model on the same stream
+pub fn sign_basis_ops(n: usize, ks: &[u8], count: usize, rng: &mut Prng, ops: &mut Vec<Case>) {
+    let info = crate::keys::keygen_info(n, ks);
+    for i in 0..count {
+        let sc: i64 = if n == 512 { [19, 20][i % 2] } else { [18, 19][i % 2] };
+        let rows: Vec<String> = info
+            .b0
+            .iter()
+            .enumerate()
+            .map(|(r, row)| ints(&row.iter().map(|&x| if r < 2 { (sc * x as i64).div_euclid(16) } else { x as i64 }).collect::<Vec<i64>>()))
+            .collect();
+        let msg = rng.bytes(7);
+        let len = 72 + 2 * n * 17 * 40;
+        ops.push(Case::new(format!("sign_basis {n} {} {} {} {} {} {} {len}", rows[0], rows[1], rows[2], rows[3], hex(&msg), rng.next() >> 1)));
+    }
 }
 
 /// `count` sign_model ops for the key of `ks` (see `sign::op_sign_model`)
